@@ -932,6 +932,19 @@ class ElemEngine:
                     for path, av in effs:
                         if path and path[0] == 0:
                             o = self.iter_object(it, path[1:])
+                            # the iterated thing may itself be the item of an enclosing loop (`for (i, row) in (&mut m).into_iter().enumerate()
+                            # { row.iter_mut().zip(..).for_each(..) }`): follow it to the object that loop walks
+                            hops = 0
+                            while o is not None and not same_obj(o) and hops < 3:
+                                r, fpath = o, []
+                                while tag(r) in ('field', 'index', 'deref') and len(fpath) < 6:
+                                    if tag(r) == 'field' and isinstance(r[2], int):
+                                        fpath.append(r[2])
+                                    r = r[1]
+                                if tag(r) != 'item':
+                                    break
+                                o = self.iter_object(r[2], tuple(reversed(fpath))) if _has_tuple_items(r[2]) else self.iter_object(r[2], ())
+                                hops += 1
                             if o is not None and same_obj(o):
                                 add(av)
                         elif path and path[0] == 'upvar':
